@@ -127,6 +127,22 @@ def run_scenario(initiator, kind, sender_threads=0, ctt=2.0, deadline=6.0, trigg
         gt.start()
         if not gate["entered"].wait(3.0):
             raise RuntimeError("gated user thread never reached the packetizer")
+    elif kind == "open_confirm_inflight":
+        # A has a CHANNEL_OPEN outstanding; B's confirmation is in flight when A's KEXINIT goes out, and a second
+        # user thread of A opens another channel during the exchange
+        def opener1():
+            try:
+                result["open1"] = A.open_channel("session" if A is sess.tc else "forwarded-tcpip",
+                                                 ("10.0.0.1", 1) if A is sess.ts else None,
+                                                 ("10.0.0.2", 2) if A is sess.ts else None, timeout=deadline)
+            except Exception as e:
+                result["exc"]["open1"] = type(e).__name__
+        if A is sess.ts:
+            sess.tc._tcp_handler = lambda *a, **k: None       # the client enabled a port forward
+        threading.Thread(target=opener1, daemon=True).start()
+        end = time.time() + 2.0
+        while link.pending(b_side) == 0 and time.time() < end:
+            time.sleep(0.002)
     elif kind != "none":
         b_send()
         # wait until the message sits in the held queue
@@ -166,6 +182,16 @@ def run_scenario(initiator, kind, sender_threads=0, ctt=2.0, deadline=6.0, trigg
             except Exception as e:
                 result["exc"]["user%d" % i] = type(e).__name__
                 return
+    if kind == "open_confirm_inflight":
+        def opener2():
+            try:
+                result["open2"] = A.open_channel("session" if A is sess.tc else "forwarded-tcpip",
+                                                 ("10.0.0.1", 3) if A is sess.ts else None,
+                                                 ("10.0.0.2", 4) if A is sess.ts else None, timeout=deadline)
+            except Exception as e:
+                result["exc"]["open2"] = type(e).__name__
+        threading.Thread(target=opener2, daemon=True).start()
+        time.sleep(0.05)       # opener2 is now waiting for clear_to_send (it must not hold Transport.lock there)
     uts = [threading.Thread(target=user_sender, args=(i,), daemon=True) for i in range(sender_threads)]
     for u in uts:
         u.start()
@@ -205,6 +231,11 @@ def run_scenario(initiator, kind, sender_threads=0, ctt=2.0, deadline=6.0, trigg
             delivered = "global" in result
         elif kind == "gated_user_send":
             delivered = chB.recv(64) == b"gated-user-data"
+        elif kind == "open_confirm_inflight":
+            end = time.time() + deadline
+            while time.time() < end and not (("open1" in result or "open1" in result["exc"]) and ("open2" in result or "open2" in result["exc"])):
+                time.sleep(0.01)
+            delivered = "open1" in result and "open2" in result
         else:
             delivered = True
     except Exception as e:
